@@ -254,6 +254,15 @@ func (c *stepCheck) checkLogs(hung bool) {
 			continue
 		}
 		last := rs[len(rs)-1]
+		if last.EndSeq == 0 || (last.Signaled != "" && last.Signaled != "teardown") {
+			// the last attempt was killed (stop) while it may still have been printing: what it managed
+			// to print is not scripted exactly, nothing is demanded
+			bump(c.out, "last_attempt_killed")
+			continue
+		}
+		if c.cancelSeenSeq != 0 {
+			bump(c.out, "stopped_run_checked")
+		}
 		plan := outputPlan(s, last.Attempt)
 		wantOut := planBytes(plan, "o")
 		wantErr := planBytes(plan, "e")
